@@ -137,13 +137,15 @@ theorem memchr_eq_none_iff (d : UInt8) (l : List UInt8) : memchr d l = none ↔ 
 
 theorem roundDown_le (v f : Nat) : roundDown v f ≤ v := Nat.div_mul_le_self v f
 
-theorem le_roundUp (v f : Nat) (hf : 0 < f) : v ≤ roundUp v f := by
+theorem le_roundUp (v f : Nat) (hf : 0 < f) (hv : v < U64) : v ≤ roundUp v f := by
   unfold roundUp
-  have h := Nat.div_add_mod (v + f - 1) f
-  have h2 := Nat.mod_lt (v + f - 1) hf
-  rw [Nat.mul_comm] at h
-  generalize (v + f - 1) / f * f = q at *
-  omega
+  split
+  · omega
+  · have h := Nat.div_add_mod (v + (f - 1)) f
+    have h2 := Nat.mod_lt (v + (f - 1)) hf
+    rw [Nat.mul_comm] at h
+    generalize (v + (f - 1)) / f * f = q at *
+    omega
 
 /-! ### the invariant -/
 
@@ -192,7 +194,7 @@ theorem sliceFromLocation_of_LocOk {F : List UInt8} {st : St} {s : Nat} {l : Loc
 /-- `determine_range_sourcing` on a valid request: either a location that holds the requested bytes, or a
 range to read that contains the request, lies inside the file and inside the chunk-rounded hull. -/
 theorem determine_cases (chunk : Nat) (F : List UInt8) (st : St) (hinv : Inv F st) (r : Range)
-    (h1 : r.lo < r.hi) (h2 : r.hi ≤ F.length) (hc : 0 < chunk) (hsz : F.length + chunk < U64) :
+    (h1 : r.lo < r.hi) (h2 : r.hi ≤ F.length) (hc : 0 < chunk) (hsz : F.length < U64) :
     (∃ l, determineRangeSourcing chunk st.mgr r = .ok (.existing l) ∧ LocOk F st.buffers r.lo l
         ∧ l.size = r.hi - r.lo) ∨
     (∃ rr, determineRangeSourcing chunk st.mgr r = .ok (.needNew rr) ∧ roundDown r.lo chunk ≤ rr.lo ∧
@@ -201,18 +203,17 @@ theorem determine_cases (chunk : Nat) (F : List UInt8) (st : St) (hinv : Inv F s
   have n1 : ¬ ¬ r.lo < r.hi := by omega
   have n2 : ¬ ¬ r.hi ≤ st.mgr.fileLen := by omega
   have n3 : ¬ chunk = 0 := by omega
-  have n4 : ¬ U64 ≤ r.hi + chunk := by omega
-  have hup := le_roundUp r.hi chunk hc
+  have hup := le_roundUp r.hi chunk hc (by omega)
   have hdn := roundDown_le r.lo chunk
   -- the two `planNew` results
   have plan : ∀ b : Bool, ∃ rr : Range,
-      (if chunk = 0 then (Out.panic : Out Sourcing) else if U64 ≤ r.hi + chunk then .panic else
+      (if chunk = 0 then (Out.panic : Out Sourcing) else
         .ok (.needNew ⟨if b = true then r.lo else roundDown r.lo chunk, min (roundUp r.hi chunk) st.mgr.fileLen⟩))
         = .ok (.needNew rr) ∧ roundDown r.lo chunk ≤ rr.lo ∧
         rr.lo ≤ r.lo ∧ r.hi ≤ rr.hi ∧ rr.hi ≤ F.length ∧ rr.hi ≤ roundUp r.hi chunk := by
     intro b
     refine ⟨⟨if b = true then r.lo else roundDown r.lo chunk, min (roundUp r.hi chunk) st.mgr.fileLen⟩,
-      by simp only [n3, n4, if_false], ?_⟩
+      by simp only [n3, if_false], ?_⟩
     cases b <;> simp only [Bool.false_eq_true, if_false, if_true] <;> omega
   unfold determineRangeSourcing
   simp only [n1, n2, if_false]
@@ -290,7 +291,7 @@ def SrcFailsIn (c : Cfg) (F : List UInt8) (lo hi : Nat) : Prop :=
 /-- `get_range_location` on a valid request: keeps the invariant, only appends buffers, leaves the string
 cache alone, never panics; it returns a location that holds `F[r.lo, r.hi)`, or the source's failure (and
 then the state is unchanged). -/
-theorem getRangeLocation_spec (c : Cfg) (F : List UInt8) (hc : 0 < c.chunk) (hsz : F.length + c.chunk < U64)
+theorem getRangeLocation_spec (c : Cfg) (F : List UInt8) (hc : 0 < c.chunk) (hsz : F.length < U64)
     (hf : Faithful F c.src) (st : St) (hinv : Inv F st) (r : Range) (h1 : r.lo < r.hi)
     (h2 : r.hi ≤ F.length) :
     Inv F (getRangeLocation c st r).1 ∧
@@ -332,7 +333,7 @@ theorem getRangeLocation_spec (c : Cfg) (F : List UInt8) (hc : 0 < c.chunk) (hsz
 
 /-- `read_bytes_at`: keeps the invariant and returns what the file alone dictates (`specRead`), unless the
 source fails on the buffer it has to read (then: clean error, state unchanged). -/
-theorem readBytesAt_spec (c : Cfg) (F : List UInt8) (hc : 0 < c.chunk) (hsz : F.length + c.chunk < U64)
+theorem readBytesAt_spec (c : Cfg) (F : List UInt8) (hc : 0 < c.chunk) (hsz : F.length < U64)
     (hf : Faithful F c.src) (st : St) (hinv : Inv F st) (o n : Nat) :
     Inv F (readBytesAt c st o n).1 ∧
     ((readBytesAt c st o n).2 = specRead F o n ∨
@@ -379,7 +380,7 @@ theorem cacheGet_mem {m : List ((Nat × UInt8) × Loc)} {k : Nat × UInt8} {l : 
 
 /-- `read_bytes_at_until`: keeps the invariant and returns what the file alone dictates (`specUntil`),
 unless the source fails on the buffer it has to read (then: clean error, state unchanged). -/
-theorem readBytesAtUntil_spec (c : Cfg) (F : List UInt8) (hc : 0 < c.chunk) (hsz : F.length + c.chunk < U64)
+theorem readBytesAtUntil_spec (c : Cfg) (F : List UInt8) (hc : 0 < c.chunk) (hsz : F.length < U64)
     (hf : Faithful F c.src) (st : St) (hinv : Inv F st) (r : Range) (d : UInt8) :
     Inv F (readBytesAtUntil c st r d).1 ∧
     ((readBytesAtUntil c st r d).2 = specUntil F r d ∨
@@ -463,7 +464,7 @@ def SrcFails (c : Cfg) (F : List UInt8) : Op → Prop
 /-- **Step lemma.** From any state satisfying the invariant, a public call re-establishes the invariant and
 returns exactly what the file (and, for the uncached `read_bytes_into`, the source) dictates — or the
 source's failure on the buffer it had to read, leaving the state unchanged. -/
-theorem step_spec (c : Cfg) (F : List UInt8) (hc : 0 < c.chunk) (hsz : F.length + c.chunk < U64)
+theorem step_spec (c : Cfg) (F : List UInt8) (hc : 0 < c.chunk) (hsz : F.length < U64)
     (hf : Faithful F c.src) (st : St) (hinv : Inv F st) (op : Op) :
     Inv F (step c st op).1 ∧
     ((step c st op).2 = spec F c.src op ∨
@@ -487,14 +488,14 @@ theorem srcFails_not_ok {c : Cfg} {F : List UInt8} (hok : SourceOk F c.src) (op 
   | into o n => exact h
 
 /-- every state reached by a history of public calls satisfies the invariant -/
-theorem foldl_inv (c : Cfg) (F : List UInt8) (hc : 0 < c.chunk) (hsz : F.length + c.chunk < U64)
+theorem foldl_inv (c : Cfg) (F : List UInt8) (hc : 0 < c.chunk) (hsz : F.length < U64)
     (hf : Faithful F c.src) (ops : List Op) (st : St) (hinv : Inv F st) :
     Inv F (ops.foldl (fun st op => (step c st op).1) st) := by
   induction ops generalizing st with
   | nil => exact hinv
   | cons op ops ih => exact ih _ (step_spec c F hc hsz hf st hinv op).1
 
-theorem run_inv (c : Cfg) (F : List UInt8) (hc : 0 < c.chunk) (hsz : F.length + c.chunk < U64)
+theorem run_inv (c : Cfg) (F : List UInt8) (hc : 0 < c.chunk) (hsz : F.length < U64)
     (hf : Faithful F c.src) (ops : List Op) : Inv F (run c F.length ops) :=
   foldl_inv c F hc hsz hf ops _ (inv_init F)
 
